@@ -895,6 +895,21 @@ pub fn c10_parts(quick: bool) -> (Vec<EwSpec>, Vec<Scenario>) {
             scs.push(sc(&format!("C10.{}", sname), &cfg, vec![at(0, Act::Connect(0)), after_c(0, 1, Act::CSend(0, 0, SendMode::Reliable, 100)), after_c(0, 4, act)], env, if quick { 1 } else { 2 }, EO_C10));
         }
     }
+    // five clients whose timers overlap in the server's queue: one connected and idle (keep-alives), one whose SYN-ACKs are lost twice
+    // (handshake resends), one that vanishes (active time-out), one that the server closes after it has gone (ten disconnect retries), one
+    // that connects late and leaves at once (closed linger): every timer of every connection must fire at its own time
+    for t in [3000u64, 20_000] {
+        for order in 0..2usize {
+            let mut cfg = EwCfg::new(5);
+            for c in cfg.clients.iter_mut() { c.active_timeout_ms = t; } cfg.server.active_timeout_ms = t;
+            let o = |i: usize| if order == 0 { i } else { 4 - i };
+            let script = vec![at(0, Act::Connect(o(0))), at(3, Act::Connect(o(1))), at(5, Act::Connect(o(2))), at(12, Act::Forget(o(2))), at(7, Act::Connect(o(3))), at(14, Act::Forget(o(3))), at(15, Act::SDisconnectNow(o(3))),
+                              at(20, Act::Connect(o(4))), at(26, Act::CDisconnectNow(o(4))), at(40, Act::CSend(o(1), 0, SendMode::Reliable, 100)), at(120, Act::SSend(o(0), 0, SendMode::Reliable, 50))];
+            let mut env = EwEnv::basic(if quick { 6 } else { 12 }, 320);
+            env.dev_start = 10; env.fair_delta = 100; env.fates = DF_LOSS; env.fate_types = &[0, 1, 2, 4, 5]; env.stop_when_done = false; env.deltas = leak_deltas(100, &[0, 1999, 2001]); env.lose_synack = 2;
+            scs.push(sc(&format!("C10.five-clients-overlapping-timers.t{}.order{}", t, order), &cfg, script, env, if quick { 1 } else { 2 }, EO_C10 | EO_C09 | EO_C08));
+        }
+    }
     (scs, custom)
 }
 
